@@ -89,6 +89,20 @@ def monitor(state, op, o):
         elif delivered:
             return "commit-from-idle"
         return None
+    # (a') the key bound to the editor's commit_composition action (Return in the fluid editor, which never commits on its own
+    # otherwise): whenever it delivers text it has committed the composition, and what it delivers is the preview reported
+    # just before (it first confirms the highlighted candidate, which is part of that preview already; if a menu is left it
+    # commits nothing).  Only where no key binder can rebind the key and the editor's bindings are the defaults.
+    # With the caret inside the input the confirmation moves the caret to the end and recomposes first (OnSelect), so the text
+    # delivered is the preview AFTER that step: the clause is stated for the caret at the end of the input only.
+    if (w[0] == "key" and len(w) == 3 and w[1] == str(sc.XK["Return"]) and w[2] == "0" and composing_b and delivered
+            and prev.get("caret") == str(len(sc.unhex(prev.get("input"))))):
+        sch = sc.SCHEMAS.get(state.get("sid"), {})
+        procs = sch.get("procs", [])
+        if "fluid_editor" in procs and "key_binder" not in procs and not sch.get("editor_bindings"):
+            state["return_commits"] = state.get("return_commits", 0) + 1
+            if delivered != fmt(sc.unhex(prev.get("preview"))):
+                return "commit!=preview"
     # (b) select a displayed candidate that covers the rest of the input
     if w[0] in ("select", "select_page") and o.get("ret") == "1" and not opts.get("soft_cursor"):
         m = parse_menu(prev.get("menu"))
